@@ -1,2 +1,58 @@
-(* C09 — placeholder until skip theorems are pinned. *)
-From JV Require Import Bytes Tables TextTok TextReader.
+(* C09 (binary half) -- Skipping a container or value lands exactly after its matching close.
+   Statements only.  balanced_read d (BinLexer): from a position just after an Open, read tokens with
+   read_token, count opens and closes, return the data that follows the matching close.
+   The text half (text TokenReader::skip_container / skip_unquoted_value) is stated separately. *)
+From JV Require Import Bytes Tables BinPrim BufWin BinLexer BinReader.
+From JV.proofs Require Import BinLexProofs BinRoundProofs BinStreamProofs BinSkipProofs BinRSkipProofs BinSkipValueProofs.
+Open Scope nat_scope.
+
+(* Lexer::skip_container (via skip_value(OPEN)): for ALL byte strings -- so also for strings, floats
+   and integers whose payload bytes look like OPEN/CLOSE ids, and for rgb blocks, which the skipper
+   walks through as Open U32.. Close -- if token counting reaches the matching close, the skip
+   succeeds and leaves the cursor on exactly the same remaining data (= same byte position) *)
+Theorem C09_bin_lexer_skip_lands : forall d r,
+  balanced_read d = Some r -> skip_container_bytes d = (Ok tt, r).
+Proof. exact lexer_skip_lands. Qed.
+Print Assumptions C09_bin_lexer_skip_lands.
+
+Theorem C09_bin_lexer_skip_value_open : forall l r,
+  balanced_read (lx_data l) = Some r -> lx_skip_value L_OPEN l = (Ok tt, mklx r (lx_orig l)).
+Proof. exact lexer_skip_value_open. Qed.
+Print Assumptions C09_bin_lexer_skip_value_open.
+
+(* Lexer::skip_value(id) after read_id returned id: ends where reading the value as one token ends
+   (value_read: for an Open, where balanced token reading ends); ids that carry no value (Equal,
+   Close, a true id) are skipped as nothing, an rgb block as one value *)
+Theorem C09_bin_lexer_skip_value_lands : forall d id d1 r orig,
+  read_id d = Ok (id, d1) -> value_read d = Some r ->
+  lx_skip_value id (mklx d1 orig) = (Ok tt, mklx r orig).
+Proof. exact lexer_skip_value_lands. Qed.
+Print Assumptions C09_bin_lexer_skip_value_lands.
+
+(* TokenReader::skip_container: [st_ok s d pos c] says that the reader state s (any split of the
+   pending data between window and underlying reader, any fault-free rest of the schedule, capacity
+   c) stands at stream position pos with d still to come.  If the capacity fits d (holds its
+   largest token, BinLexer.fits) and token counting reaches the matching close leaving r, the skip
+   succeeds and leaves a state that stands for r at position pos + |d| - |r|. *)
+Theorem C09_bin_reader_skip_lands : forall s d pos c r,
+  st_ok s d pos c -> fits c d = true -> balanced_read d = Some r ->
+  exists s', rdr_skip_container s = (Ok tt, s') /\ st_ok s' r (pos + (length d - length r)) c.
+Proof. exact reader_skip_lands. Qed.
+Print Assumptions C09_bin_reader_skip_lands.
+
+(* both skip loops are iterations of "one id plus its payload" (skip_item); a token is one item, an
+   rgb token is 6 or 7 items that leave the depth unchanged *)
+Theorem C09_bin_token_is_items : forall c depth d t r,
+  read_token d = Ok (t, r) -> 1 <= depth -> length d - length r <= c ->
+  (t = BClose /\ depth = 1 /\ skip_item d = Ok (L_CLOSE, r)) \/ isteps c depth d (depth_after t depth) r.
+Proof. exact token_steps. Qed.
+
+(* non-vacuity: a container body holding a string made of CLOSE ids, an rgb block and a nested container *)
+Example C09_bin_nonvacuous :
+  let body := concat (map write_token
+     [BQuoted [4%N; 0%N; 4%N; 0%N]; BEqual; BRgb (mkrgb 3 4 5 (Some 4%N)); BOpen; BU64 1125912791875587; BClose; BClose; BId 7%N]) in
+  balanced_read body = Some [7%N; 0%N] /\ skip_container_bytes body = (Ok tt, [7%N; 0%N]) /\
+  fits 30 body = true /\
+  let s := rdr_new 30 [Data 1; Data 1; Data 5; Data 1; Data 2; Data 40; Data 1] body in
+  st_ok s body 0 30 /\ fst (rdr_skip_container s) = Ok tt /\ rdr_position (snd (rdr_skip_container s)) = length body - 2.
+Proof. vm_compute. repeat split; reflexivity. Qed.
